@@ -90,6 +90,9 @@ func (con *Connection) DecryptedRead(b []byte) (int, error) {
 		if err != nil {
 			if neterr, ok := err.(net.Error); ok && neterr.Timeout() {
 				// Ignore timeout error #77
+			} else if err == io.EOF {
+				// The peer has finished sending. It may still wait for the response
+				// to its last request: the connection is closed by whoever reads.
 			} else {
 				log.Debug.Println("Decryption failed:", err)
 				con.connection.Close()
